@@ -1,3 +1,10 @@
+(* C11 extended to ESCAPED mappings: the serialiser (SpecIO.escape_map: every "path" in a string key becomes
+   "\path") and the parser (Spec.unescape_keys: a mapping with a key containing "\path" is an escaped literal,
+   every key is un-escaped in place) are inverse to each other, and the round trip of C11Proof.C11_roundtrip_eq
+   holds on a fragment that admits such mappings (C11E_roundtrip_eq, C11E_leaf).
+   1. strings (unesc_esc, contains_esc, contains_esc_inv)   2. mappings (unescape_escape_map, pfs_escaped, C11E_arg)
+   3.-4. what is written for a JSON value (wr) and what from_spec makes of it   5. leaves   6. trees
+   7. the fragment of C11 is included   8. examples   9. counterexamples (one FINDING). *)
 From Coq Require Import ZArith NArith List Bool String Ascii Lia.
 From Valida Require Import Py Lang Defs Cond Dsl Check DocSem Path Cast Str SpecDefs RuleDefs RuleTerms
   Spec SpecIO SpecSpell Eq Inst RunSpec.
@@ -449,5 +456,672 @@ Qed.
 Lemma forallb_In {Y} (p : Y -> bool) l x : forallb p l = true -> In x l -> p x = true.
 Proof. intros H Hin. rewrite forallb_forall in H. exact (H x Hin). Qed.
 
+(* ================================================================== *)
+(* 5. leaves (no type conversion: casts c q = false)                    *)
+
+Definition items_have_path (items : list (string * pyval)) : bool :=
+  existsb (fun kv => str_contains "path" (fst kv)) items.
+
+(* the argument value written for a leaf *)
+Definition q_json3 (q : dsl) : pyval :=
+  match q with
+  | Q_items_contain items =>
+      if items_have_path items then escape_map (map skv items) else kwd (kw_map wr_item items)
+  | _ => match q_form q with
+         | FZero => VNone
+         | FOne v => wr v
+         | FKw items => kwd (kw_map wr items)
+         | FStar l => VList (map wr l)
+         end
+  end.
+Definition leaf_json3 (c : scls) (q : dsl) : pyval := VDict [(VStr (leaf_key c q), q_json3 q)].
+
+(* ---- serialiser ---- *)
+
+Lemma args_json_one3 l v rest :
+  l_args l ++ map snd (l_kwargs l) = ALit v :: rest -> json_pure v = true ->
+  args_json (1, false, false)%nat false l = Ok (wr v).
+Proof.
+  intros Hl Hv. unfold args_json. cbn [Nat.eqb negb andb]. rewrite Hl, a2j_lit. exact (val_to_json_wr v Hv).
+Qed.
+
+Lemma kws_json_wr items : forallb json_pure (map snd items) = true ->
+  kws_json false (kmapL items) = Ok (map skv (kw_map wr items)).
+Proof.
+  unfold kw_map. induction items as [|[k v] r IH]; cbn [map snd forallb]; intros H; [reflexivity|].
+  apply andb_true_iff in H as [Hv Hr].
+  unfold kmap. cbn [map fst snd kws_json]. fold (kws_json false). fold (kmapL r).
+  rewrite a2j_lit, (val_to_json_wr v Hv). cbn [bind]. rewrite (IH Hr). reflexivity.
+Qed.
+
+Lemma kws_item_wr items : forallb json_pure (map snd items) = true ->
+  kws_item false (kmapL items) = Ok (map skv (kw_map wr_item items)).
+Proof.
+  unfold kw_map. induction items as [|[k v] r IH]; cbn [map snd forallb]; intros H; [reflexivity|].
+  apply andb_true_iff in H as [Hv Hr].
+  unfold kmap. cbn [map fst snd kws_item arg1_raw]. fold (kws_item false). fold (kmapL r).
+  rewrite (item_to_json_wr v Hv). cbn [bind]. rewrite (IH Hr). reflexivity.
+Qed.
+
+Lemma kws_raw_lit items : kws_raw (kmapL items) = Ok (map skv items).
+Proof.
+  induction items as [|[k v] r IH]; [reflexivity|].
+  unfold kmap. cbn [map fst snd kws_raw arg1_raw bind]. fold kws_raw. fold (kmapL r). rewrite IH. reflexivity.
+Qed.
+
+Lemma args_json_kw3 l items :
+  l_kwargs l = kmapL items -> forallb json_pure (map snd items) = true ->
+  args_json (2, false, false)%nat false l = Ok (kwd (kw_map wr items)).
+Proof.
+  intros Hl Hv. unfold kwd. change (fun kv : string * pyval => (VStr (fst kv), snd kv)) with skv.
+  unfold args_json; cbn [Nat.eqb Nat.ltb Nat.leb negb andb orb]; rewrite Hl.
+  rewrite (kws_json_wr items Hv). reflexivity.
+Qed.
+
+Lemma args_json_items3 l items :
+  l_kwargs l = kmapL items -> forallb json_pure (map snd items) = true ->
+  args_json (0, false, true)%nat false l =
+  Ok (if items_have_path items then escape_map (map skv items) else kwd (kw_map wr_item items)).
+Proof.
+  intros Hl Hv. unfold kwd. change (fun kv : string * pyval => (VStr (fst kv), snd kv)) with skv.
+  unfold args_json; cbn [Nat.eqb Nat.ltb Nat.leb negb andb orb]; rewrite Hl.
+  rewrite kws_have_path_lit. fold (items_have_path items). destruct (items_have_path items).
+  - rewrite kws_raw_lit. reflexivity.
+  - rewrite (kws_item_wr items Hv). reflexivity.
+Qed.
+
+Lemma mapM_a2j_wr l : forallb json_pure l = true -> mapM (a2j false) (map ALit l) = Ok (map wr l).
+Proof.
+  induction l as [|v l IH]; cbn [forallb mapM map]; [reflexivity|].
+  intros H. apply andb_true_iff in H as [Hv Hl]. rewrite a2j_lit, (val_to_json_wr v Hv). cbn [bind].
+  rewrite (IH Hl). reflexivity.
+Qed.
+
+Lemma args_json_star3 l vs :
+  l_args l = map ALit vs -> forallb json_pure vs = true ->
+  args_json (0, true, false)%nat false l = Ok (VList (map wr vs)).
+Proof.
+  intros Hl Hv. unfold args_json. cbn [Nat.eqb Nat.ltb Nat.leb negb andb orb].
+  rewrite Hl, (mapM_a2j_wr vs Hv). reflexivity.
+Qed.
+
+(* every leaf with JSON arguments is written (no fragment condition on the mappings) *)
+Lemma args_json_q3 c q : forallb json_pure (q_args q) = true ->
+  args_json (q_shape q) false (lmapL (expected_leaf c q)) = Ok (q_json3 q).
+Proof.
+  rewrite q_args_form. intros H.
+  destruct q; cbn [q_form form_args q_json3 q_shape] in *;
+    first [ apply args_json_zero
+          | eapply args_json_one3; [reflexivity|]; cbn [forallb] in H; rewrite andb_true_r in H; exact H
+          | apply args_json_kw3; [reflexivity|exact H]
+          | apply args_json_items3; [reflexivity|exact H]
+          | apply args_json_star3; [reflexivity|exact H] ].
+Qed.
+
+Lemma leaf_to_json3 c q : casts c q = false -> forallb json_pure (q_args q) = true ->
+  l2j (lmapL (expected_leaf c q)) = Ok (leaf_json3 c q).
+Proof. intros Hc H. rewrite leaf_to_json_expected, Hc, (args_json_q3 c q H). reflexivity. Qed.
+
+(* ---- purity ---- *)
+
+Lemma map_snd_kw_map f items : map snd (kw_map f items) = map f (map snd items).
+Proof. unfold kw_map. rewrite !map_map. reflexivity. Qed.
+
+Lemma forallb_map_pure (f : pyval -> pyval) l :
+  (forall v, json_pure v = true -> json_pure (f v) = true) ->
+  forallb json_pure l = true -> forallb json_pure (map f l) = true.
+Proof.
+  intros Hf. induction l as [|v l IH]; cbn [forallb map]; [reflexivity|].
+  intros H. apply andb_true_iff in H as [Hv Hl]. rewrite (Hf v Hv). exact (IH Hl).
+Qed.
+
+Lemma json_pure_q3 q : forallb json_pure (q_args q) = true -> json_pure (q_json3 q) = true.
+Proof.
+  rewrite q_args_form. intros H.
+  assert (Hkw : forall f items, (forall v, json_pure v = true -> json_pure (f v) = true) ->
+            forallb json_pure (map snd items) = true -> json_pure (kwd (kw_map f items)) = true).
+  { intros f items Hf Hi. rewrite json_pure_kwd, map_snd_kw_map. exact (forallb_map_pure f _ Hf Hi). }
+  destruct q; cbn [q_form form_args q_json3] in *;
+    first [ reflexivity
+          | cbn [forallb] in H; rewrite andb_true_r in H; exact (json_pure_wr _ H)
+          | exact (Hkw wr _ json_pure_wr H)
+          | rewrite json_pure_list; exact (forallb_map_pure wr _ json_pure_wr H)
+          | idtac ].
+  destruct (items_have_path items).
+  - rewrite json_pure_escape_map. change (VDict (map skv items)) with (kwd items). rewrite json_pure_kwd. exact H.
+  - exact (Hkw wr_item _ json_pure_wr_item H).
+Qed.
+
+Lemma leaf_json3_pure c q : forallb json_pure (q_args q) = true -> json_pure (leaf_json3 c q) = true.
+Proof. intros H. unfold leaf_json3. rewrite json_pure_single. exact (json_pure_q3 q H). Qed.
+
+(* ---- parser ---- *)
+
+Definition q_frag3 (q : dsl) : bool :=
+  match q with
+  | Q_items_contain items => items_have_path items || (items_ok items && forallb item3 (map snd items))
+  | _ => match q_form q with
+         | FZero => true
+         | FOne v => plain3 v
+         | FKw items => forallb sub3 (map snd items)
+         | FStar l => forallb sub3 l
+         end
+  end.
+
+Lemma tail_one3 c q v :
+  class_ok c q = true -> q_shape q = (1, false, false)%nat -> q_call q = (q_method q, [v], []) ->
+  json_pure v = true -> plain3 v = true ->
+  exists t, leaf_tail (scls_class c) (q_method q) (q_ctor c q) (wr v) = Ok (t, leaf_result c q).
+Proof.
+  intros Hcls Hs Hq Hj Hpl. destruct (coerce_wr v Hj Hpl) as [cv [Hc Hv]]. eexists.
+  apply (tail_ok c q (wr v) cv [v] [] Hcls Hc).
+  - rewrite Hs. cbn [dispatch_by Nat.eqb negb andb]. rewrite Hv. reflexivity.
+  - pose proof (tie_build c q Hcls) as Hb. unfold built in Hb. rewrite Hq in Hb. exact Hb.
+Qed.
+
+Lemma tail_star3 c q l :
+  class_ok c q = true -> q_shape q = (0, true, false)%nat -> q_call q = (q_method q, l, []) ->
+  forallb sub3 l = true ->
+  exists t, leaf_tail (scls_class c) (q_method q) (q_ctor c q) (VList (map wr l)) = Ok (t, leaf_result c q).
+Proof.
+  intros Hcls Hs Hq Hpl. eexists.
+  assert (Hc : coerce pfs (VList (map wr l)) = Ok (CSeq false (map inr l)))
+    by (cbn [coerce]; rewrite (coerce_items_sub l Hpl); reflexivity).
+  apply (tail_ok c q (VList (map wr l)) _ l [] Hcls Hc).
+  - rewrite Hs. cbn [dispatch_by Nat.eqb negb andb]. rewrite item_arg_inr. reflexivity.
+  - pose proof (tie_build c q Hcls) as Hb. unfold built in Hb. rewrite Hq in Hb. exact Hb.
+Qed.
+
+Lemma tail_kw3 c q items f :
+  class_ok c q = true -> (q_shape q = (2, false, false) \/ q_shape q = (0, false, true))%nat ->
+  build_leaf T idlit (scls_name c) (q_method q) [] items = Ok (expected_leaf c q) ->
+  items_ok items = true ->
+  (forall kv, In kv items -> try_path pfs (f (snd kv)) = Ok (inr (snd kv))) ->
+  exists t, leaf_tail (scls_class c) (q_method q) (q_ctor c q) (kwd (kw_map f items)) = Ok (t, leaf_result c q).
+Proof.
+  intros Hcls Hs Hb Hok Hv. eexists.
+  apply (tail_ok c q (kwd (kw_map f items)) _ [] items Hcls (coerce_kwd_f f items Hok Hv)); [|exact Hb].
+  destruct Hs as [Hs|Hs]; rewrite Hs; cbn [dispatch_by Nat.eqb Nat.ltb Nat.leb negb andb];
+    rewrite kw_of_lit; reflexivity.
+Qed.
+
+Lemma in_items_snd (p : pyval -> bool) (items : list (string * pyval)) kv :
+  forallb p (map snd items) = true -> In kv items -> p (snd kv) = true.
+Proof. intros H Hin. apply (forallb_In p (map snd items)); [exact H|]. apply in_map. exact Hin. Qed.
+
+Lemma has_path_key_skv items : has_path_key (map skv items) = items_have_path items.
+Proof.
+  unfold items_have_path. induction items as [|[k v] r IH]; [reflexivity|].
+  cbn [map skv fst snd has_path_key existsb]. rewrite IH. reflexivity.
+Qed.
+
+(* items_contain( **items ) with an item name containing "path": the keyword mapping is written raw and escaped,
+   and un-escaped in place by from_spec *)
+Lemma tail_items_esc c q items :
+  class_ok c q = true -> q_shape q = (0, false, true)%nat ->
+  build_leaf T idlit (scls_name c) (q_method q) [] items = Ok (expected_leaf c q) ->
+  items_have_path items = true ->
+  exists t, leaf_tail (scls_class c) (q_method q) (q_ctor c q) (escape_map (map skv items)) = Ok (t, leaf_result c q).
+Proof.
+  intros Hcls Hs Hb Hp. rewrite <- has_path_key_skv in Hp. destruct (coerce_escaped _ Hp) as [Hc _]. eexists.
+  apply (tail_ok c q _ _ [] items Hcls Hc); [|exact Hb].
+  rewrite Hs; cbn [dispatch_by Nat.eqb Nat.ltb Nat.leb negb andb]. rewrite map_map.
+  change (fun x : string * pyval => inr_kv (skv x)) with (fun kv : string * pyval => (VStr (fst kv), @inr (pathterm pyval) pyval (snd kv))).
+  rewrite kw_of_lit. reflexivity.
+Qed.
+
+Lemma leaf_tail3 c q :
+  class_ok c q = true -> forallb json_pure (q_args q) = true -> q_frag3 q = true ->
+  exists t, leaf_tail (scls_class c) (q_method q) (q_ctor c q) (q_json3 q) = Ok (t, leaf_result c q).
+Proof.
+  intros Hcls Hj Hf.
+  assert (Hkw : forall r, built_kw c q = Some r -> r = Ok (expected_leaf c q))
+    by (intros r; apply tie_build_kw; exact Hcls).
+  unfold q_args in Hj.
+  destruct q; cbn [q_json3 q_form q_frag3] in *; cbn [q_call app map snd forallb] in Hj; rewrite ?andb_true_r in Hj;
+    first [ apply tail_zero; [exact Hcls|reflexivity|reflexivity]
+          | apply tail_one3; [exact Hcls|reflexivity|reflexivity|exact Hj|exact Hf]
+          | apply tail_kw3; [exact Hcls|left; reflexivity|exact (Hkw _ eq_refl)|reflexivity|
+                             intros kv Hin; apply try_path_wr_sub; exact (in_items_snd sub3 _ kv Hf Hin)]
+          | apply tail_star3; [exact Hcls|reflexivity|reflexivity|exact Hf]
+          | idtac ].
+  pose proof (tie_build c (Q_items_contain items) Hcls) as Hb.
+  destruct (items_have_path items) eqn:E; cbn [orb] in Hf.
+  - apply tail_items_esc; [exact Hcls|reflexivity|exact Hb|exact E].
+  - apply andb_true_iff in Hf as [Hok Hit].
+    apply tail_kw3; [exact Hcls|right; reflexivity|exact Hb|exact Hok|].
+    intros kv Hin. apply try_path_wr_item. exact (in_items_snd item3 _ kv Hit Hin).
+Qed.
+
+Lemma casts_false c q : casts c q = false -> typed c = false /\ q_is_inst q = false.
+Proof. unfold casts. intros H. apply orb_false_iff in H. exact H. Qed.
+
+(* what is written for a leaf parses (at any positive fuel) to the leaf *)
+Lemma leaf_json3_parse c q f :
+  class_ok c q = true -> casts c q = false -> forallb json_pure (q_args q) = true -> q_frag3 q = true ->
+  exists t, self1 (S f) (leaf_json3 c q) = Ok (t, leaf_result c q).
+Proof.
+  intros Hcls Hc Hj Hf. destruct (casts_false c q Hc) as [Ht Hi].
+  unfold leaf_json3.
+  rewrite self1_S, (step1_leaf _ _ _ (leaf_key_not_binop c q)), parse_leaf_head, (head_leaf c q Hcls).
+  cbn [run_head]. rewrite Ht, Hi. cbn [conv bind].
+  exact (leaf_tail3 c q Hcls Hj Hf).
+Qed.
+
+(* ================================================================== *)
+(* 6. the extended fragment                                             *)
+
+(* leaves without type conversion: JSON arguments, escaped mappings allowed (q_frag3) *)
+Definition leaf_esc (c : scls) (q : dsl) : bool :=
+  class_ok c q && negb (casts c q) && q_frag3 q && q_wf q
+  && forallb json_pure (q_args q) && forallb wf_val (q_args q) && q_nodup q.
+
+(* under a type conversion (dtype classes, (keys_)is_instance) the arguments are types: as in C11 *)
+Definition leaf_in_c11e (c : scls) (q : dsl) : bool :=
+  if casts c q then leaf_in_c11 c q else leaf_esc c q.
+
+Definition leaf_json_e (c : scls) (q : dsl) : pyval :=
+  if casts c q then leaf_json c q else leaf_json3 c q.
+
+Lemma leaf_esc_inv c q : leaf_esc c q = true ->
+  class_ok c q = true /\ casts c q = false /\ q_frag3 q = true /\ forallb json_pure (q_args q) = true
+  /\ forallb wf_val (q_args q) = true /\ q_nodup q = true.
+Proof.
+  unfold leaf_esc. intros H.
+  apply andb_true_iff in H as [H H7]. apply andb_true_iff in H as [H H6]. apply andb_true_iff in H as [H H5].
+  apply andb_true_iff in H as [H H4]. apply andb_true_iff in H as [H H3]. apply andb_true_iff in H as [H1 H2].
+  apply negb_true_iff in H2. repeat split; assumption.
+Qed.
+
+Lemma leaf_e_to_json c q : leaf_in_c11e c q = true -> l2j (lmapL (expected_leaf c q)) = Ok (leaf_json_e c q).
+Proof.
+  unfold leaf_in_c11e, leaf_json_e. destruct (casts c q) eqn:Ec; intros H.
+  - apply leaf_to_json_ok.
+    + destruct (leaf_in_c11_inv c q H) as [Hc _]. exact Hc.
+    + exact (leaf_in_c11_nopath c q H).
+    + exact (leaf_args_ok c q H).
+  - destruct (leaf_esc_inv c q H) as [_ [_ [_ [Hj _]]]]. exact (leaf_to_json3 c q Ec Hj).
+Qed.
+
+Lemma leaf_e_pure c q : leaf_in_c11e c q = true -> json_pure (leaf_json_e c q) = true.
+Proof.
+  unfold leaf_in_c11e, leaf_json_e. destruct (casts c q) eqn:Ec; intros H.
+  - exact (leaf_json_pure c q H).
+  - destruct (leaf_esc_inv c q H) as [_ [_ [_ [Hj _]]]]. exact (leaf_json3_pure c q Hj).
+Qed.
+
+Lemma leaf_e_parse c q f : leaf_in_c11e c q = true ->
+  exists t, self1 (S f) (leaf_json_e c q) = Ok (t, leaf_result c q).
+Proof.
+  unfold leaf_in_c11e, leaf_json_e. destruct (casts c q) eqn:Ec; intros H.
+  - destruct (leaf_in_c11_inv c q H) as [Hc [Hp [Ht [_ [Hit _]]]]]. exact (leaf_json_parse c q f Hc Hp Ht Hit).
+  - destruct (leaf_esc_inv c q H) as [Hc [_ [Hf [Hj _]]]]. exact (leaf_json3_parse c q f Hc Ec Hj Hf).
+Qed.
+
+Lemma leaf_e_refl_ok c q : leaf_in_c11e c q = true -> leaf_refl_ok (c, q) = true.
+Proof.
+  unfold leaf_in_c11e, leaf_refl_ok. cbn [snd]. destruct (casts c q); intros H.
+  - destruct (leaf_in_c11_inv c q H) as [_ [_ [_ [_ [_ [_ [Hw Hn]]]]]]]. rewrite Hn, Hw. reflexivity.
+  - destruct (leaf_esc_inv c q H) as [_ [_ [_ [_ [Hw Hn]]]]]. rewrite Hn, Hw. reflexivity.
+Qed.
+
+(* ---- trees ---- *)
+
+Fixpoint tree_json_e (t : qtree) : pyval :=
+  match t with
+  | QLeaf c q => leaf_json_e c q
+  | QNull => VDict []
+  | QBin o a b => VDict [(VStr (bop_name o), VList [tree_json_e a; tree_json_e b])]
+  end.
+
+Definition leaves_c11e (t : qtree) : bool := forallb (fun cq => leaf_in_c11e (fst cq) (snd cq)) (qleaves t).
+
+Definition tree_in_c11e (t : qtree) : bool :=
+  leaves_c11e t && (tree_depth t <=? 40)%nat && negb (qmixed (qnorm t)).
+
+Lemma leaves_c11e_bin o a b : leaves_c11e (QBin o a b) = true -> leaves_c11e a = true /\ leaves_c11e b = true.
+Proof. unfold leaves_c11e. cbn [qleaves]. rewrite forallb_app. apply andb_true_iff. Qed.
+
+Lemma leaves_c11e_leaf c q : leaves_c11e (QLeaf c q) = true -> leaf_in_c11e c q = true.
+Proof. unfold leaves_c11e. cbn [qleaves forallb fst snd]. rewrite andb_true_r. exact (fun H => H). Qed.
+
+Lemma cond_to_json_tree_e n : leaves_c11e n = true -> cond1_to_json T X (cmapL (cond_of n)) = Ok (tree_json_e n).
+Proof.
+  unfold cond1_to_json. induction n as [c q| |o a IHa b IHb]; intros H.
+  - cbn [cond_of cond_map cond_to_json tree_json_e]. exact (leaf_e_to_json c q (leaves_c11e_leaf c q H)).
+  - reflexivity.
+  - apply leaves_c11e_bin in H as [Ha Hb].
+    cbn [cond_of cond_map cond_to_json tree_json_e]. rewrite (IHa Ha), (IHb Hb). cbn [bind].
+    rewrite bop_symbol_name. reflexivity.
+Qed.
+
+Lemma tree_json_e_pure n : leaves_c11e n = true -> json_pure (tree_json_e n) = true.
+Proof.
+  induction n as [c q| |o a IHa b IHb]; intros H.
+  - exact (leaf_e_pure c q (leaves_c11e_leaf c q H)).
+  - reflexivity.
+  - apply leaves_c11e_bin in H as [Ha Hb]. cbn [tree_json_e]. rewrite json_pure_single, json_pure_list.
+    cbn [forallb]. rewrite (IHa Ha), (IHb Hb). reflexivity.
+Qed.
+
+Lemma tree_json_e_parse t : forall f,
+  tree_depth t <= f -> leaves_c11e t = true ->
+  if qmixed (qnorm t) then self1 f (tree_json_e t) = Err TypeError
+  else exists tm, self1 f (tree_json_e t) = Ok (tm, cmapL (cond_of (qnorm t))).
+Proof.
+  induction t as [c q| |o a IHa b IHb]; intros f Hd Hin.
+  - cbn [tree_depth] in Hd. destruct f as [|f]; [lia|].
+    cbn [qnorm tree_json_e]. rewrite qmixed_leaf.
+    exact (leaf_e_parse c q f (leaves_c11e_leaf c q Hin)).
+  - cbn [tree_depth] in Hd. destruct f as [|f]; [lia|].
+    cbn [qnorm tree_json_e]. rewrite qmixed_null, self1_S, step1_null. eexists. reflexivity.
+  - cbn [tree_depth] in Hd. destruct f as [|f]; [lia|].
+    apply leaves_c11e_bin in Hin as [Hina Hinb].
+    assert (Hda : tree_depth a <= f) by lia. assert (Hdb : tree_depth b <= f) by lia.
+    specialize (IHa f Hda Hina). specialize (IHb f Hdb Hinb).
+    cbn [tree_json_e]. rewrite self1_S, step1_bin.
+    destruct (qmixed (qnorm a)) eqn:Ma.
+    { rewrite (qmixed_qnorm_bin_l o a b Ma), IHa. reflexivity. }
+    destruct IHa as [ta Ea]. rewrite Ea. cbn [bind]. rewrite mk_bin_null_l. cbn [bind].
+    destruct (qmixed (qnorm b)) eqn:Mb.
+    { rewrite (qmixed_qnorm_bin_r o a b Mb), IHb. reflexivity. }
+    destruct IHb as [tb Eb]. rewrite Eb. cbn [bind]. rewrite mk_bin_map, mk_bin_cond_of.
+    cbn [qnorm].
+    destruct (q_is_null (qnorm b)); [rewrite Ma; eexists; reflexivity|].
+    destruct (q_is_null (qnorm a)); [rewrite Mb; eexists; reflexivity|].
+    destruct (qmixed (QBin o (qnorm a) (qnorm b))); [reflexivity|eexists; reflexivity].
+Qed.
+
+Lemma leaves_c11e_qnorm t : leaves_c11e (qnorm t) = leaves_c11e t.
+Proof. unfold leaves_c11e. rewrite qleaves_qnorm. reflexivity. Qed.
+
+Lemma leaves_e_refl_ok n : leaves_c11e n = true -> forallb leaf_refl_ok (qleaves n) = true.
+Proof. apply forallb_impl. intros [c q] H. cbn [fst snd] in H. exact (leaf_e_refl_ok c q H). Qed.
+
+Lemma tree_in_c11e_inv t : tree_in_c11e t = true ->
+  leaves_c11e t = true /\ tree_depth t <= 40 /\ qmixed (qnorm t) = false.
+Proof.
+  unfold tree_in_c11e. intros H.
+  apply andb_true_iff in H as [H H3]. apply andb_true_iff in H as [H1 H2].
+  apply Nat.leb_le in H2. apply negb_true_iff in H3. repeat split; assumption.
+Qed.
+
+(* C11 extended to escaped mappings: the condition of a typed tree in the extended fragment serialises to
+   pure JSON data; that data parses back to THE SAME condition; the condition is `==` to itself. *)
+Theorem C11E_roundtrip_eq : forall t c,
+  tree_in_c11e t = true -> build_expect (qnorm t) = Ok c ->
+  let c1 := cond_map pyval arg1 ALit c in
+  cond1_to_json T X c1 = Ok (tree_json_e (qnorm t)) /\ json_pure (tree_json_e (qnorm t)) = true /\
+  (exists tm, cond1_from_spec T X (tree_json_e (qnorm t)) = Ok (tm, c1)) /\
+  cond1_eqb T c1 c1 = true.
+Proof.
+  intros t c Hin Hb. destruct (tree_in_c11e_inv t Hin) as [Hl [Hd Hm]].
+  unfold build_expect in Hb. rewrite Hm in Hb. injection Hb as <-. cbv zeta.
+  assert (Hln : leaves_c11e (qnorm t) = true) by (rewrite leaves_c11e_qnorm; exact Hl).
+  split; [exact (cond_to_json_tree_e _ Hln)|].
+  split; [exact (tree_json_e_pure _ Hln)|].
+  split; [|exact (cond_eqb_refl _ (leaves_e_refl_ok _ Hln))].
+  rewrite cond1_unfold.
+  assert (Hdn : tree_depth (qnorm t) <= 40) by (pose proof (depth_qnorm t); lia).
+  pose proof (tree_json_e_parse (qnorm t) 40 Hdn Hln) as H. rewrite qnorm_idem, Hm in H. exact H.
+Qed.
+
+Theorem C11E_roundtrip : forall t c,
+  tree_in_c11e t = true -> build_expect (qnorm t) = Ok c ->
+  let c1 := cond_map pyval arg1 ALit c in
+  exists j, cond1_to_json T X c1 = Ok j /\ json_pure j = true /\
+    exists tm c2, cond1_from_spec T X j = Ok (tm, c2) /\ cond1_eqb T c2 c1 = true /\ cond1_to_json T X c2 = Ok j.
+Proof.
+  intros t c Hin Hb. destruct (C11E_roundtrip_eq t c Hin Hb) as [Hj [Hp [[tm Hs] He]]]. cbv zeta.
+  exists (tree_json_e (qnorm t)). split; [exact Hj|]. split; [exact Hp|].
+  exists tm, (cond_map pyval arg1 ALit c). split; [exact Hs|]. split; [exact He|exact Hj].
+Qed.
+
+Lemma tree_in_c11e_builds t : tree_in_c11e t = true -> build_expect (qnorm t) = Ok (cond_of (qnorm t)).
+Proof. intros H. destruct (tree_in_c11e_inv t H) as [_ [_ Hm]]. unfold build_expect. rewrite Hm. reflexivity. Qed.
+
+Theorem C11E_leaf : forall c q,
+  leaf_in_c11e c q = true ->
+  let c1 := cond_map pyval arg1 ALit (CLeaf (expected_leaf c q)) in
+  cond1_to_json T X c1 = Ok (leaf_json_e c q) /\ json_pure (leaf_json_e c q) = true /\
+  (exists tm, cond1_from_spec T X (leaf_json_e c q) = Ok (tm, c1)) /\
+  cond1_eqb T c1 c1 = true.
+Proof.
+  intros c q H.
+  assert (Hin : tree_in_c11e (QLeaf c q) = true).
+  { unfold tree_in_c11e, leaves_c11e. cbn [qleaves forallb fst snd tree_depth qnorm]. rewrite H, qmixed_leaf. reflexivity. }
+  exact (C11E_roundtrip_eq (QLeaf c q) _ Hin (tree_in_c11e_builds _ Hin)).
+Qed.
+
+(* ================================================================== *)
+(* 7. the fragment of C11 is included, with the same JSON               *)
+
+Lemma item2_item3 v : item2 v = true -> item3 v = true.
+Proof. destruct v; try reflexivity. cbn [item2 item3]. intros ->. apply orb_true_r. Qed.
+
+Lemma item2_noesc v : item2 v = true -> noesc v = true.
+Proof.
+  destruct v; try reflexivity. cbn [item2 noesc]. intros H. destruct (okkeys_inv d H) as [Hk [Hc _]].
+  rewrite (no_path_key d Hk Hc). reflexivity.
+Qed.
+
+Lemma plain2_plain3 v : plain2 v = true -> plain3 v = true.
+Proof.
+  destruct v; try reflexivity; cbn [plain2 plain3]; try (apply forallb_impl; exact item2_item3).
+  intros H. apply andb_true_iff in H as [Hk Hv]. rewrite Hk, (forallb_impl _ _ _ item2_item3 Hv). apply orb_true_r.
+Qed.
+
+Lemma plain2_sub3 v : plain2 v = true -> sub3 v = true.
+Proof.
+  destruct v; try reflexivity; cbn [plain2 sub3]; try (apply forallb_impl; exact item2_noesc).
+  intros H. apply andb_true_iff in H as [Hk Hv]. rewrite Hk, (forallb_impl _ _ _ item2_noesc Hv). apply orb_true_r.
+Qed.
+
+Lemma plain2_wr v : plain2 v = true -> wr v = v.
+Proof.
+  destruct v; try reflexivity; cbn [plain2 wr]; intros H.
+  - rewrite (map_wr_item_noesc l (forallb_impl _ _ _ item2_noesc H)). reflexivity.
+  - apply andb_true_iff in H as [Hk Hv]. destruct (okkeys_inv d Hk) as [Hs [Hc _]].
+    rewrite (no_path_key d Hs Hc), (wr_vals_noesc d (forallb_impl _ _ _ item2_noesc Hv)). reflexivity.
+Qed.
+
+Lemma kw_map_id f items : (forall kv, In kv items -> f (snd kv) = snd kv) -> kw_map f items = items.
+Proof.
+  unfold kw_map. induction items as [|[k v] r IH]; intros H; [reflexivity|].
+  cbn [map fst snd]. pose proof (H (k, v) (or_introl eq_refl)) as Hv. cbn [snd] in Hv. rewrite Hv.
+  rewrite IH by (intros kv Hin; apply H; right; exact Hin). reflexivity.
+Qed.
+
+Lemma map_id_on {Y} (f : Y -> Y) l : (forall x, In x l -> f x = x) -> map f l = l.
+Proof.
+  induction l as [|x l IH]; intros H; [reflexivity|]. cbn [map]. rewrite (H x (or_introl eq_refl)).
+  rewrite IH by (intros y Hy; apply H; right; exact Hy). reflexivity.
+Qed.
+
+Lemma items_have_path_nopath items : items_nopath items = true -> items_have_path items = false.
+Proof. unfold items_nopath, items_have_path. apply negb_true_iff. Qed.
+
+Lemma q_frag3_c11 q : q_plain2 q = true -> q_items_ok q = true -> q_items_nopath q = true -> q_frag3 q = true.
+Proof.
+  unfold q_plain2. rewrite q_args_form. intros Hp Hi Hn.
+  destruct q; cbn [q_form form_args q_frag3 q_items_ok q_items_nopath] in *;
+    first [ reflexivity
+          | cbn [forallb] in Hp; rewrite andb_true_r in Hp; exact (plain2_plain3 _ Hp)
+          | exact (forallb_impl _ _ _ plain2_sub3 Hp)
+          | idtac ].
+  rewrite (items_have_path_nopath items Hn), Hi. cbn [orb andb].
+  exact (forallb_impl _ _ _ (fun v H => item2_item3 v (plain2_item2 v H)) Hp).
+Qed.
+
+Lemma q_json3_c11 q : q_plain2 q = true -> q_items_nopath q = true -> q_json3 q = form_val (q_form q).
+Proof.
+  unfold q_plain2. rewrite q_args_form. intros Hp Hn.
+  assert (Hkw : forall items, forallb plain2 (map snd items) = true -> kw_map wr items = items).
+  { intros items H. apply kw_map_id. intros kv Hin. apply plain2_wr. exact (in_items_snd plain2 items kv H Hin). }
+  destruct q; cbn [q_form form_args form_val q_json3 q_items_nopath] in *;
+    first [ reflexivity
+          | cbn [forallb] in Hp; rewrite andb_true_r in Hp; exact (plain2_wr _ Hp)
+          | rewrite (Hkw _ Hp); reflexivity
+          | rewrite (map_id_on wr _ (fun x Hin => plain2_wr x (forallb_In plain2 _ x Hp Hin))); reflexivity
+          | idtac ].
+  rewrite (items_have_path_nopath items Hn). f_equal. apply kw_map_id. intros kv Hin.
+  apply wr_item_noesc. apply item2_noesc. apply plain2_item2. exact (in_items_snd plain2 items kv Hp Hin).
+Qed.
+
+Theorem leaf_c11_in_c11e c q : leaf_in_c11 c q = true ->
+  leaf_in_c11e c q = true /\ leaf_json_e c q = leaf_json c q.
+Proof.
+  intros H. unfold leaf_in_c11e, leaf_json_e. destruct (casts c q) eqn:Ec; [split; [exact H|reflexivity]|].
+  destruct (leaf_in_c11_inv c q H) as [Hc [Hp [_ [Hw [Hi [Hj [Hwf Hn]]]]]]]. rewrite Ec in Hj. cbn [orb] in Hj.
+  pose proof (leaf_in_c11_nopath c q H) as Hnp. split.
+  - unfold leaf_esc. rewrite Hc, Ec, (q_frag3_c11 q Hp Hi Hnp), Hw, Hj, Hwf, Hn. reflexivity.
+  - unfold leaf_json3, leaf_json, q_json_val. rewrite Ec, form_json_false, (q_json3_c11 q Hp Hnp). reflexivity.
+Qed.
+
+Theorem tree_c11_in_c11e t : tree_in_c11 t = true -> tree_in_c11e t = true /\ tree_json_e t = tree_json t.
+Proof.
+  intros H. destruct (tree_in_c11_inv t H) as [Hl [Hd Hm]]. split.
+  - unfold tree_in_c11e. apply Nat.leb_le in Hd. rewrite Hd, Hm, andb_true_r. cbn [negb]. rewrite andb_true_r.
+    revert Hl. unfold leaves_c11, leaves_c11e. apply forallb_impl. intros [c q] Hcq. cbn [fst snd] in *.
+    exact (proj1 (leaf_c11_in_c11e c q Hcq)).
+  - clear Hd Hm H. induction t as [c q| |o a IHa b IHb]; cbn [tree_json_e tree_json].
+    + exact (proj2 (leaf_c11_in_c11e c q (leaves_c11_leaf c q Hl))).
+    + reflexivity.
+    + apply leaves_c11_bin in Hl as [Ha Hb]. rewrite (IHa Ha), (IHb Hb). reflexivity.
+Qed.
+
+(* ================================================================== *)
+(* 8. non-vacuity                                                       *)
+
+Example ex_esc_string :
+  str_replace "path" "\path" "a\path.pathpath" = "a\\path.\path\path" /\
+  str_replace "\path" "path" "a\\path.\path\path" = "a\path.pathpath".
+Proof. vm_compute. split; reflexivity. Qed.
+
+Definition exE_tree : qtree :=
+  QBin BoAnd
+    (QBin BoOr
+       (* a mapping argument with keys containing "path" (one already containing the escape code); its values are
+          written raw *)
+       (QLeaf SValue (Q_equal_to (VDict [(VStr "path", VInt 1); (VStr "a", VDict [(VStr "path", VInt 2)]);
+                                          (VStr "x\path.len", VNone)])))
+       (* escaped mappings as list items / as values of a mapping argument *)
+       (QBin BoXor
+          (QLeaf SValue (Q_in (VList [VDict [(VStr "mypath", VNone)]; VInt 1; VDict [(VStr "b", VInt 2)]])))
+          (QLeaf SKey (Q_not_equal_to (VDict [(VStr "a", VDict [(VStr "path.len", VInt 3)]); (VStr "b", VStr "path")])))))
+    (QBin BoAnd
+       (QBin BoOr
+          (* items_contain with an item name containing "path", and with an escaped mapping as item value *)
+          (QLeaf SValue (Q_items_contain [("path", VInt 1); ("a", VDict [(VStr "path", VInt 2)])]))
+          (QLeaf SValue (Q_items_contain [("a", VDict [(VStr "path", VInt 1)]); ("b", VList [VInt 1])])))
+       (QBin BoAnd
+          (* an escaped mapping as a keyword value / a *args argument; a type conversion (as in C11) *)
+          (QLeaf SValue (Q_in_range (VDict [(VStr "path", VInt 1)]) (VInt 3)))
+          (QBin BoOr (QLeaf SValue (Q_keys_contain_any_of [VDict [(VStr "xpath", VInt 1)]; VStr "path"]))
+                     (QLeaf SValueDataType (Q_in (VList [VType TInt; VType TDict])))))).
+
+Example exE_in : tree_in_c11e exE_tree = true /\ tree_in_c11 exE_tree = false.
+Proof. vm_compute. split; reflexivity. Qed.
+
+Example exE_json :
+  tree_json_e (qnorm exE_tree) =
+  VDict [(VStr "and", VList [
+    VDict [(VStr "or", VList [
+      VDict [(VStr "value.equal_to",
+              VDict [(VStr "\path", VInt 1); (VStr "a", VDict [(VStr "path", VInt 2)]); (VStr "x\\path.len", VNone)])];
+      VDict [(VStr "xor", VList [
+        VDict [(VStr "value.in_", VList [VDict [(VStr "my\path", VNone)]; VInt 1; VDict [(VStr "b", VInt 2)]])];
+        VDict [(VStr "key.not_equal_to",
+                VDict [(VStr "a", VDict [(VStr "\path.len", VInt 3)]); (VStr "b", VStr "path")])]])]])];
+    VDict [(VStr "and", VList [
+      VDict [(VStr "or", VList [
+        VDict [(VStr "value.items_contain", VDict [(VStr "\path", VInt 1); (VStr "a", VDict [(VStr "path", VInt 2)])])];
+        VDict [(VStr "value.items_contain", VDict [(VStr "a", VDict [(VStr "\path", VInt 1)]); (VStr "b", VList [VInt 1])])]])];
+      VDict [(VStr "and", VList [
+        VDict [(VStr "value.in_range", VDict [(VStr "lower", VDict [(VStr "\path", VInt 1)]); (VStr "upper", VInt 3)])];
+        VDict [(VStr "or", VList [
+          VDict [(VStr "value.keys_contain_any_of", VList [VDict [(VStr "x\path", VInt 1)]; VStr "path"])];
+          VDict [(VStr "value.dtype.in_", VList [VStr "int"; VStr "dict"])]])]])]])]])].
+Proof. vm_compute. reflexivity. Qed.
+
+(* the statement of the theorem, evaluated on the example (independently of its proof) *)
+Example exE_roundtrip :
+  roundtrip (cond_of (qnorm exE_tree)) = Ok (tree_json_e (qnorm exE_tree), true, true, tree_json_e (qnorm exE_tree)).
+Proof. vm_compute. reflexivity. Qed.
+
+Example exE_leaves :
+  leaf_in_c11e SValue (Q_equal_to (VDict [(VStr "path", VInt 1); (VStr "a", VInt 2)])) = true /\
+  leaf_in_c11 SValue (Q_equal_to (VDict [(VStr "path", VInt 1); (VStr "a", VInt 2)])) = false /\
+  item3 (VDict [(VStr "mypath", VNone)]) = true /\ plain3 (VDict [(VStr "a", VDict [(VStr "path", VInt 1)])]) = true /\
+  sub3 (VDict [(VStr "path", VInt 1)]) = true /\
+  q_frag3 (Q_items_contain [("path", VInt 1); ("a", VInt 2)]) = true.
+Proof. vm_compute. repeat split. Qed.
+
+(* ================================================================== *)
+(* 9. outside the fragment: closed counterexamples                      *)
+(*    (components of `roundtrip`: JSON written, json_pure, rebuilt == original, JSON written again) *)
+
+(* (a) FINDING (also true of the Python implementation).  For callables with several named parameters
+   (in_range, not_in_range, equal_to_approx, keys_contain_*N_of) and for *args callables (keys_contain_any_of,
+   allowed_keys, ...), each argument is written by _arg_to_json_like AS AN ARGUMENT: mappings that are items of
+   a list argument or values of a mapping argument are escaped.  But from_spec reads those arguments as ITEMS
+   of the keyword mapping / of the argument list: it un-escapes a mapping there, but does not look into a list
+   or into the values of a mapping.  The inner mapping comes back with the escaped key, and is escaped once
+   more when written again.
+   Python: Value.in_range(lower=[{"path": 1}], upper=3)
+           -> to_json_like() = {'value.in_range': {'lower': [{'\\path': 1}], 'upper': 3}}
+           -> from_json_like(...) has lower=[{'\\path': 1}]; != the original; written again with '\\\\path'.
+           Value.keys_contain_any_of([{"path": 1}]),  Value.in_range(lower={"a": {"path": 1}}, upper=3): the same. *)
+Example C11E_counterexample_inner_escape :
+  roundtrip (L SValue (Q_in_range (VList [VDict [(VStr "path", VInt 1)]]) (VInt 3))) =
+    Ok (VDict [(VStr "value.in_range", VDict [(VStr "lower", VList [VDict [(VStr "\path", VInt 1)]]); (VStr "upper", VInt 3)])],
+        true, false,
+        VDict [(VStr "value.in_range", VDict [(VStr "lower", VList [VDict [(VStr "\\path", VInt 1)]]); (VStr "upper", VInt 3)])]) /\
+  roundtrip (L SValue (Q_keys_contain_any_of [VList [VDict [(VStr "path", VInt 1)]]])) =
+    Ok (VDict [(VStr "value.keys_contain_any_of", VList [VList [VDict [(VStr "\path", VInt 1)]]])], true, false,
+        VDict [(VStr "value.keys_contain_any_of", VList [VList [VDict [(VStr "\\path", VInt 1)]]])]) /\
+  roundtrip (L SValue (Q_in_range (VDict [(VStr "a", VDict [(VStr "path", VInt 1)])]) (VInt 3))) =
+    Ok (VDict [(VStr "value.in_range", VDict [(VStr "lower", VDict [(VStr "a", VDict [(VStr "\path", VInt 1)])]); (VStr "upper", VInt 3)])],
+        true, false,
+        VDict [(VStr "value.in_range", VDict [(VStr "lower", VDict [(VStr "a", VDict [(VStr "\\path", VInt 1)])]); (VStr "upper", VInt 3)])]) /\
+  sub3 (VList [VDict [(VStr "path", VInt 1)]]) = false /\
+  sub3 (VDict [(VStr "a", VDict [(VStr "path", VInt 1)])]) = false /\
+  (* the same values as the single argument of a one-parameter callable are in the fragment *)
+  plain3 (VList [VDict [(VStr "path", VInt 1)]]) = true /\
+  plain3 (VDict [(VStr "a", VDict [(VStr "path", VInt 1)])]) = true.
+Proof. vm_compute. repeat split. Qed.
+
+(* (b) known finding D40 at item level: a mapping whose only key reads `path[.m[.m]]` NOT in lower case is not
+   escaped ("path" in key is case-sensitive) but read as a path spec (key tokens are lower-cased): hence `okkeys`
+   in item3 / plain3 / sub3.  Python: Value.in_([{"PATH": []}]) is rebuilt with value=[DataPath()]. *)
+Example C11E_counterexample_upper_path_item :
+  let q := Q_in (VList [VDict [(VStr "PATH", VList [])]]) in
+  let j := VDict [(VStr "value.in_", VList [VDict [(VStr "PATH", VList [])]])] in
+  cond1_to_json T X (cond_map pyval arg1 ALit (L SValue q)) = Ok j /\
+  (let* r := cond1_from_spec T X j in Ok (kwargs_of (snd r))) = Ok [("value", ALit (VList [VObj 0]))] /\
+  item3 (VDict [(VStr "PATH", VList [])]) = false /\ leaf_in_c11e SValue q = false.
+Proof. vm_compute. repeat split. Qed.
+
+(* ================================================================== *)
+(* Coverage.  C11E_roundtrip_eq = C11_roundtrip_eq on a larger fragment (tree_c11_in_c11e: every tree of C11 is
+   in it, with the same JSON).  New w.r.t. C11, where no type conversion applies (casts c q = false):
+   - one-parameter callables (plain3): a mapping argument some key of which contains "path" (any values; keys
+     already containing "\path" included); mapping items of a list argument / mapping values of a mapping
+     argument that are escaped (item3);
+   - callables with several named parameters and *args callables (sub3): an escaped mapping as argument;
+   - items_contain( **items ): item names containing "path" (any names, any values), or otherwise item values
+     at item level (item3).
+   The serialiser lemmas (val_to_json_wr, args_json_q3, leaf_to_json3) hold for ALL JSON arguments.
+   Still excluded: (a) inner mappings with "path" keys under several-parameter / *args callables (finding above);
+   (b) single-key `PATH[.m[.m]]` mappings in a not lower-case spelling (D40); tuples and non-JSON values; trees
+   deeper than 40; data-path arguments; under a type conversion the fragment is that of C11. *)
+
 Print Assumptions unesc_esc.
+Print Assumptions contains_esc.
+Print Assumptions contains_esc_inv.
+Print Assumptions unescape_escape_map.
 Print Assumptions C11E_arg.
+Print Assumptions C11E_leaf.
+Print Assumptions C11E_roundtrip_eq.
+Print Assumptions C11E_roundtrip.
+Print Assumptions tree_c11_in_c11e.
